@@ -1,6 +1,8 @@
 package main
 
 import (
+	"sort"
+	"verif/harness/internal/srcsel"
 	"bytes"
 	"crypto/sha256"
 	"encoding/hex"
@@ -21,6 +23,8 @@ import (
 // exploration (thorough generators + search), it is not by itself an alarm.
 func writeFingerprints(repo, out string) error {
 	fps := map[string]string{}
+	imports := map[string]map[string]bool{} // package dir -> repository-internal package dirs it imports
+	const modPrefix = "github.com/gcash/bchutil"
 	err := filepath.Walk(repo, func(path string, info os.FileInfo, err error) error {
 		if err != nil {
 			return err
@@ -32,7 +36,7 @@ func writeFingerprints(repo, out string) error {
 			return nil
 		}
 		n := info.Name()
-		if !strings.HasSuffix(n, ".go") || strings.HasSuffix(n, "_test.go") || strings.HasPrefix(n, "verif_export") {
+		if !strings.HasSuffix(n, ".go") || !srcsel.Analysed(path) {
 			return nil
 		}
 		fset := token.NewFileSet()
@@ -40,6 +44,20 @@ func writeFingerprints(repo, out string) error {
 		if perr != nil {
 			fps[rel(repo, path)] = "parse-error"
 			return nil
+		}
+		pdir := filepath.Dir(rel(repo, path))
+		for _, im := range f.Imports {
+			ip := strings.Trim(im.Path.Value, `"`)
+			if ip == modPrefix || strings.HasPrefix(ip, modPrefix+"/") {
+				d := strings.TrimPrefix(strings.TrimPrefix(ip, modPrefix), "/")
+				if d == "" {
+					d = "."
+				}
+				if imports[pdir] == nil {
+					imports[pdir] = map[string]bool{}
+				}
+				imports[pdir][d] = true
+			}
 		}
 		var buf bytes.Buffer
 		if perr := printer.Fprint(&buf, fset, f); perr != nil {
@@ -60,6 +78,16 @@ func writeFingerprints(repo, out string) error {
 	})
 	if err != nil {
 		return err
+	}
+	// "//imports:<pkg dir>" entries: the repository-internal import graph, so that the driver can close a
+	// property's anchored files under "everything their packages can call inside the repository"
+	for d, m := range imports {
+		var l []string
+		for k := range m {
+			l = append(l, k)
+		}
+		sort.Strings(l)
+		fps["//imports:"+d] = strings.Join(l, ",")
 	}
 	j, _ := json.MarshalIndent(fps, "", " ")
 	return os.WriteFile(out, j, 0o644)
